@@ -2,11 +2,14 @@ import Iauthd.Proto.Table
 import Iauthd.Addr.ProofsRef
 import Iauthd.Addr.ProofsText
 import Iauthd.Log.Proofs
+import Iauthd.Proto.RenderConf
 /-
   Property C09 — "The server channel carries only well-formed, correctly addressed messages"
-  (model part).  The grammar check itself is the Spec `Iauthd.Proto.Hist.parseOut` run by the
-  judge on every line the real daemon writes.
+  (model part).  The grammar is the Spec `Iauthd.Proto.Hist.parseOut` / `wellFormed`; the judge
+  runs it on every line the real daemon writes, and `C09_wellformed` below proves it of every
+  line the model can write, for every history.
 -/
+set_option linter.unusedVariables false
 namespace Iauthd.Properties
 open Iauthd Iauthd.Proto
 
@@ -65,5 +68,98 @@ theorem C09_address_text (a : Addr.Addr) :
 theorem C09_console_silent (st : Log.LogSt) (h : st.verbosity = 0) (fac : Bytes) (sev : Nat) (m : Bytes) :
     Log.consoleEcho st fac sev m = [] ∧ ∀ ev ∈ Log.logEvs st fac sev m, ∀ t, ev ≠ Log.Ev.console t :=
   Log.console_silent st h fac sev m
+
+/-! ### every line is a single syntactically valid IAuth message
+
+  `Hist.wellFormed l`: `l` contains no line feed or NUL, splits (blanks separate, ':' starts the
+  trailing parameter: the way the server reads it) into a message letter and parameters; a
+  client-directed message carries a decimal id, an address word, a decimal port and the number of
+  parameters its letter takes; a query carries service, a routing tag that reads back as an
+  (id, serial) pair, and its payload; `S` carries module and text.
+
+  Setting: `StateOK s` — every stored request's fields, the service names and the rule classes
+  can stand in a line (no blank / line feed / NUL where a middle parameter is built from them),
+  and the length limits leave room (`ACCOUNTLEN + CLASSLEN ≤ 900`, `USERLEN ≤ 900`; the header
+  values 64 + 63 and 10 satisfy this: `limits_ok`).  `StateOK` holds at start-up for every
+  admissible configuration (`C09_start`) and is kept by every operation (`stepOp_wellFormed`)
+  and every reload with an admissible file (`applyConfig_ok`).  Configured names containing
+  blanks or line feeds are outside the theorem (DESIGN F24: such a file is the operator's
+  error; the generators stay inside). -/
+
+/-- the shipped limits leave room in the 1024-byte message buffer -/
+theorem limits_ok : LimOK ({} : Limits) := by unfold LimOK; decide
+
+/-- the state right after the modules are loaded, before any configuration -/
+def bootState (hasXq hasClass : Bool) (lim : Limits) : State := { hasXq := hasXq, hasClass := hasClass, lim := lim }
+
+theorem bootState_ok (hasXq hasClass : Bool) (lim : Limits) (hl : LimOK lim) : StateOK (bootState hasXq hasClass lim) :=
+  ⟨(fun r hr => absurd hr List.not_mem_nil), (fun srv hs => absurd hs List.not_mem_nil), (fun r hr => absurd hr List.not_mem_nil), hl⟩
+
+/-- **C09, start-up**: with an admissible first configuration the invariant holds and the
+    banner, the configuration report and the options line are well formed. -/
+theorem C09_start (hasXq hasClass : Bool) (lim : Limits) (hl : LimOK lim) (cfg : Config) (hc : ConfigOK cfg)
+    (version : Bytes) (hv : Clean version) :
+    let s := (applyConfig (bootState hasXq hasClass lim) {} cfg true).1
+    StateOK s ∧ ∀ l ∈ startup s version, Hist.wellFormed l = true := by
+  have h0 := applyConfig_ok _ (bootState_ok hasXq hasClass lim hl) {} cfg
+    ⟨(fun n hn => absurd hn List.not_mem_nil), (fun n hn => absurd hn List.not_mem_nil)⟩ hc true
+  exact ⟨h0.1, startup_wellFormed _ h0.1 version hv⟩
+
+/-- **C09, every history**: from any state satisfying the invariant, whatever bytes arrive in
+    whatever chunks and whichever request timers fire in between, every line the daemon writes
+    is a single well-formed IAuth message (and the invariant still holds afterwards). -/
+theorem C09_wellformed (s : State) (h : StateOK s) (ops : List Op) (s' : State) (outs : List (List Bytes))
+    (hr : runOps s ops = .ok (s', outs)) :
+    StateOK s' ∧ ∀ out ∈ outs, ∀ l ∈ out, Hist.wellFormed l = true :=
+  runOps_wellFormed ops s h s' outs hr
+
+/-- **C09, reload**: an admissible new file keeps the invariant (and a reload writes nothing:
+    `applyConfig` has no output). -/
+theorem C09_reload (s : State) (h : StateOK s) (live new : Config) (hl : ConfigOK live) (hn : ConfigOK new) :
+    StateOK (applyConfig s live new false).1 ∧ ConfigOK (applyConfig s live new false).2 :=
+  applyConfig_ok s h live new hl hn false
+
+/-- the daemon reads its own routing tags back (`iauth_routing` / `iauth_validate_request`),
+    and so does the reader of the output -/
+theorem C09_tag_roundtrip (r : Req) (h1 : -2147483648 ≤ r.client) (h2 : r.client ≤ 2147483647)
+    (hs : r.serial < 4294967296) :
+    parseTag (routing r) = some (r.client, r.serial) ∧ Hist.tagOf (routing r) = some (r.client, r.serial) :=
+  ⟨parseTag_routing r h1 h2 hs, tagOf_routing r h1 h2 hs⟩
+
+/-! non-vacuity: a configuration with a service and a rule is admissible, and concrete lines of
+    every kind pass / fail the grammar as they should -/
+
+def sampleCfg : Config :=
+  { timeout := 30,
+    xq := [{ name := b "login.example.org", value := b "login" }],
+    cls := [{ name := b "staff", isString := false, kids := [(b "class", b "ops"), (b "hostname", b "*.example.org")] }] }
+
+theorem sampleCfg_ok : ConfigOK sampleCfg := by
+  have w1 : Word (b "login.example.org") := ⟨(by decide), (by intro c hc; revert c; decide), (by decide)⟩
+  have w2 : Word (b "staff") := ⟨(by decide), (by intro c hc; revert c; decide), (by decide)⟩
+  refine ⟨?_, ?_⟩
+  · intro n hn
+    simp only [sampleCfg, List.mem_singleton] at hn
+    subst hn
+    exact ⟨w1, clean_of_cleanB (by decide), (by decide), (fun kv hkv => absurd hkv List.not_mem_nil)⟩
+  · intro n hn
+    simp only [sampleCfg, List.mem_singleton] at hn
+    subst hn
+    refine ⟨w2, clean_of_cleanB (by decide), (by decide), ?_⟩
+    intro kv hkv
+    simp only [List.mem_cons, List.not_mem_nil, or_false] at hkv
+    rcases hkv with rfl | rfl
+    · exact ⟨(by intro c hc; revert c; decide), clean_of_cleanB (by decide)⟩
+    · exact ⟨(by intro c hc; revert c; decide), clean_of_cleanB (by decide)⟩
+
+example : Hist.wellFormed (b "R 5 10.0.0.1 4000 alice:17 ops") = true := by decide
+example : Hist.wellFormed (b "k 5 10.0.0.1 4000 :go away") = true := by decide
+example : Hist.wellFormed (b "X login.example.org 5_1 :LOGIN alice pw") = true := by decide
+example : Hist.wellFormed (b "S iauth :1-0 reqs alloc, 1 in use; 0 data frees") = true := by decide
+example : Hist.wellFormed (b "U 7 0:1:2:3:4:5:6:7 99 ") = false := by decide      -- F29: no user name
+example : Hist.wellFormed (b "D 5 10.0.0.1 4000 a b") = false := by decide          -- two classes
+example : Hist.wellFormed (b "R 5 10.0.0.1 x alice") = false := by decide           -- port not a number
+example : Hist.wellFormed (b "log: something happened") = false := by decide        -- not a message
+example : Hist.wellFormed (b "X login.example.org zz :LOGIN a b") = false := by decide -- tag does not read back
 
 end Iauthd.Properties
